@@ -123,7 +123,10 @@ SPEC = {
         "literalIntWith_closed", "int_value_exact", "int_overflow_rejected", "int_rejected_only_when_too_large",
         "literalInt_radix", "token_numeric_dispatch", "float_parts_shape_as_modelled", "lex_float_nearest", "nearest64_total", "nearest64_correct", "nearest64_zero",
         "nearest_correct_partial", "nearest_correct", "nearest_monotone", "nearest64_monotone",
-        "nearest_exact_on_representable"]],
+        "nearest_exact_on_representable",
+        "literal_tables_as_modelled", "emit_int_exact", "emit_value_exact", "emit_whole_value_exact",
+        "emit_infinity_exact", "emit_f32_double_rounding_witness",
+        "multi_file_spans_in_file", "multi_file_error_in_file"]],
     "harness": "c10",
     "nontrivial": nontrivial,
     "finding_key": finding_key,
